@@ -1,9 +1,248 @@
-/- C04 — reorder_visual is the L2 permutation.  (first layer) -/
+/-
+  C04 — `reorder_visual` is the L2 permutation for every level sequence.
+
+  Model: `reorderVisual` (UBidi/Model/Reorder.lean), the fuel-based transcription of
+  `reorder_visual` / `next_range` of lib.rs.  Spec: `Spec.l2` (UBidi/Spec/Reorder.lean).
+
+  Proof outline (helper lemmas in UBidi/Lemmas/C04Runs, C04Pass, C04Loop):
+  * one `rvPass` for level `k` reverses every maximal chunk of POSITIONS with level ≥ k
+    (`rvPass_eq`, `passOn`);
+  * invariant `Inv k`: the levels read through the current order and capped at `k` are the
+    original levels capped at `k`; under it the positional pass is the Spec's pass over the
+    runs of the current order (`passOn_eq_specPass`), and every pass keeps it;
+  * hence the outer loop is the Spec's fold over `downFrom max (min | 1)` (`rvLoop_eq`);
+  * the Model's extra passes below the lowest odd level that occurs come in pairs
+    (even `k+1`, odd `k` not occurring) that cancel (`fold_cancel`).
+
+  `C04_length`, `C04_perm`, `C04_identity` need no hypothesis on the levels (when
+  `Level::new_lowest_ge_rtl` fails the Model returns the identity order together with the
+  panic marker); `C04_no_panic` and `C04_eq_spec` need the `Level` range `≤ 126`
+  (`reorderVisual [201, 203] = ([0, 1], some lowestGeRtl)` whereas `Spec.l2 [201, 203] = [1, 0]`).
+-/
 import UBidi.Model.Reorder
 import UBidi.Spec.Reorder
+import UBidi.Props.C19
+import UBidi.Lemmas.C04Runs
+import UBidi.Lemmas.C04Pass
+import UBidi.Lemmas.C04Loop
 namespace UBidi.Props.C04
-open UBidi
+open UBidi UBidi.Lemmas.C04
 
 theorem empty : reorderVisual [] = ([], none) ∧ Spec.l2 [] = [] := by constructor <;> rfl
+
+/-! ### the shape of `reorderVisual` on a non-empty list -/
+
+/-- minimum / maximum as `reorder_visual` computes them -/
+local notation "minOf" l0:max tl:max => List.foldl min l0 (l0 :: tl)
+local notation "maxOf" l0:max tl:max => List.foldl max l0 (l0 :: tl)
+
+theorem minOf_le (l0 : Nat) (tl : List Nat) : ∀ l ∈ l0 :: tl, minOf l0 tl ≤ l := by
+  intro l hl
+  have := foldl_min_le tl (min l0 l0)
+  simp only [List.foldl_cons]
+  simp only [List.mem_cons] at hl
+  rcases hl with rfl | hl
+  · have := this.1; omega
+  · exact this.2 l hl
+
+theorem minOf_mem (l0 : Nat) (tl : List Nat) : minOf l0 tl ∈ l0 :: tl := by
+  simp only [List.foldl_cons, Nat.min_self, List.mem_cons]
+  exact foldl_min_mem tl l0
+
+theorem le_maxOf (l0 : Nat) (tl : List Nat) : ∀ l ∈ l0 :: tl, l ≤ maxOf l0 tl := by
+  intro l hl
+  have := le_foldl_max tl (max l0 l0)
+  simp only [List.foldl_cons]
+  simp only [List.mem_cons] at hl
+  rcases hl with rfl | hl
+  · have := this.1; omega
+  · exact this.2 l hl
+
+theorem maxOf_mem (l0 : Nat) (tl : List Nat) : maxOf l0 tl ∈ l0 :: tl := by
+  simp only [List.foldl_cons, Nat.max_self, List.mem_cons]
+  exact foldl_max_mem tl l0
+
+theorem minOf_le_maxOf (l0 : Nat) (tl : List Nat) : minOf l0 tl ≤ maxOf l0 tl :=
+  le_maxOf l0 tl _ (minOf_mem l0 tl)
+
+/-- the Spec's maximum (`foldl max 0`) is the Model's maximum -/
+theorem specMax_eq (l0 : Nat) (tl : List Nat) : (l0 :: tl).foldl max 0 = maxOf l0 tl := by
+  apply Nat.le_antisymm
+  · rcases foldl_max_mem (l0 :: tl) 0 with h | h
+    · rw [h]; exact Nat.zero_le _
+    · exact le_maxOf l0 tl _ h
+  · exact (le_foldl_max (l0 :: tl) 0).2 _ (maxOf_mem l0 tl)
+
+/-- the loop of `reorder_visual`, when it is entered with the lower bound `minOdd ≥ 1`, is the
+    fold of the Spec's passes over `max, max-1, …, minOdd` -/
+theorem loop_eq (levels : List Nat) (minOdd maxL : Nat) (h1 : 1 ≤ minOdd) :
+    rvLoop levels minOdd (maxL + 1) maxL (List.range levels.length) =
+      ((Spec.downFrom maxL minOdd).foldl (fun order m => specPass levels m order)
+        (List.range levels.length), none) :=
+  rvLoop_eq levels minOdd h1 (maxL + 1) maxL _ (by simp) (Inv_range levels maxL) (by omega)
+
+/-! ### C04: no panic, length, permutation -/
+
+theorem C04_no_panic (lv : List Nat) (h : ∀ l ∈ lv, l ≤ 126) : (reorderVisual lv).2 = none := by
+  cases lv with
+  | nil => rfl
+  | cons l0 tl =>
+    unfold reorderVisual
+    simp only
+    split
+    · rfl
+    · rename_i hif
+      have hmin : minOf l0 tl ≤ 126 := h _ (minOf_mem l0 tl)
+      have hmax : maxOf l0 tl ≤ 126 := h _ (maxOf_mem l0 tl)
+      have hmm := minOf_le_maxOf l0 tl
+      split
+      · rename_i hnone
+        exfalso
+        have h126 := (UBidi.Props.C19.newLowestGeRtl_fails_iff _ hmin).mp hnone
+        apply hif
+        have e : maxOf l0 tl = 126 := by omega
+        rw [h126, e]; decide
+      · rename_i minOdd hsome
+        have hs := UBidi.Props.C19.newLowestGeRtl_some _ _ hsome
+        rw [loop_eq (l0 :: tl) minOdd _ (by omega)]
+
+theorem C04_perm (lv : List Nat) : List.Perm (reorderVisual lv).1 (List.range lv.length) := by
+  cases lv with
+  | nil => exact List.Perm.refl _
+  | cons l0 tl =>
+    unfold reorderVisual
+    simp only
+    split
+    · exact List.Perm.refl _
+    · split
+      · exact List.Perm.refl _
+      · exact rvLoop_perm _ _ _ _ _
+
+theorem C04_length (lv : List Nat) : (reorderVisual lv).1.length = lv.length := by
+  rw [(C04_perm lv).length_eq, List.length_range]
+
+/-! ### C04: identity on all-even levels, and equality with the Spec -/
+
+theorem C04_identity (lv : List Nat) (h : ∀ l ∈ lv, l % 2 = 0) :
+    (reorderVisual lv).1 = List.range lv.length := by
+  cases lv with
+  | nil => rfl
+  | cons l0 tl =>
+    unfold reorderVisual
+    simp only
+    split
+    · rfl
+    · split
+      · rfl
+      · rename_i minOdd hsome
+        have hs := UBidi.Props.C19.newLowestGeRtl_some _ _ hsome
+        rw [loop_eq (l0 :: tl) minOdd _ (by omega)]
+        simp only
+        have hmin : minOf l0 tl % 2 = 0 := h _ (minOf_mem l0 tl)
+        have hmax : maxOf l0 tl % 2 = 0 := h _ (maxOf_mem l0 tl)
+        have hmm := minOf_le_maxOf l0 tl
+        have hle := hs.2.2.2 (minOf l0 tl + 1) (by omega) (by omega)
+        have hodd : minOdd = minOf l0 tl + 1 := by
+          have := hs.1; have := hs.2.1
+          omega
+        refine fold_cancel (l0 :: tl) minOdd hs.1 ((maxOf l0 tl - minOf l0 tl) / 2) _ ?_ ?_ _
+        · omega
+        · intro l hl hl'
+          have := h l hl; omega
+
+theorem C04_eq_spec (lv : List Nat) (h : ∀ l ∈ lv, l ≤ 126) : (reorderVisual lv).1 = Spec.l2 lv := by
+  cases lv with
+  | nil => rfl
+  | cons l0 tl =>
+    cases hodds : (l0 :: tl).filter (· % 2 == 1) with
+    | nil =>
+      -- no odd level: the Spec is the identity, and so is the Model
+      have heven : ∀ l ∈ l0 :: tl, l % 2 = 0 := by
+        intro l hl
+        have : l ∉ (l0 :: tl).filter (· % 2 == 1) := by rw [hodds]; simp
+        simp only [List.mem_filter, hl, true_and, beq_iff_eq] at this
+        omega
+      rw [C04_identity _ heven]
+      simp only [Spec.l2, hodds]
+    | cons o os =>
+      have hmem : ∀ x, x ∈ o :: os ↔ (x ∈ l0 :: tl ∧ x % 2 = 1) := by
+        intro x; rw [← hodds]; simp [List.mem_filter]
+      -- the lowest odd level that occurs
+      have hlo_mem : os.foldl min o ∈ o :: os := by
+        rcases foldl_min_mem os o with e | e
+        · rw [e]; simp
+        · exact List.mem_cons_of_mem _ e
+      have hlo_le : ∀ l ∈ l0 :: tl, l % 2 = 1 → os.foldl min o ≤ l := by
+        intro l hl hl'
+        have : l ∈ o :: os := (hmem l).mpr ⟨hl, hl'⟩
+        simp only [List.mem_cons] at this
+        rcases this with rfl | this
+        · exact (foldl_min_le os l).1
+        · exact (foldl_min_le os o).2 l this
+      -- the Spec side
+      have hspec : Spec.l2 (l0 :: tl) =
+          (Spec.downFrom (maxOf l0 tl) (os.foldl min o)).foldl
+            (fun order m => specPass (l0 :: tl) m order) (List.range (l0 :: tl).length) := by
+        simp only [Spec.l2, hodds]
+        rw [specMax_eq]
+      rw [hspec]
+      generalize os.foldl min o = lo at hlo_mem hlo_le ⊢
+      have hlo := (hmem lo).mp hlo_mem
+      have hlo126 : lo ≤ 126 := h lo hlo.1
+      have hminlo : minOf l0 tl ≤ lo := minOf_le l0 tl lo hlo.1
+      have hlomax : lo ≤ maxOf l0 tl := le_maxOf l0 tl lo hlo.1
+      obtain ⟨hor1, hor2, hor3⟩ := UBidi.Props.C19.orOne_spec (minOf l0 tl)
+      have hlo2 := hlo.2
+      have horlo : Level.orOne (minOf l0 tl) ≤ lo := hor3 lo hminlo hlo.2
+      have hnew : Level.newLowestGeRtl (minOf l0 tl) = some (Level.orOne (minOf l0 tl)) := by
+        unfold Level.newLowestGeRtl
+        rw [UBidi.Props.C19.new_spec, if_pos (by omega)]
+      -- the Model side
+      unfold reorderVisual
+      simp only
+      split
+      · rename_i hif
+        exfalso
+        simp only [Bool.and_eq_true, beq_iff_eq] at hif
+        have e1 : minOf l0 tl = lo := by
+          have := hif.1; omega
+        have := hif.2
+        rw [e1] at this
+        have hl := hlo.2
+        simp only [Level.isLtr, beq_iff_eq] at this
+        omega
+      · rw [hnew]
+        simp only
+        rw [loop_eq (l0 :: tl) _ _ (by omega)]
+        simp only
+        rw [downFrom_append (maxOf l0 tl + 1 - lo) (maxOf l0 tl) lo (Level.orOne (minOf l0 tl))
+              (by omega) horlo (by omega)]
+        rw [List.foldl_append]
+        exact fold_cancel (l0 :: tl) _ hor1 ((lo - Level.orOne (minOf l0 tl)) / 2) (lo - 1)
+          (by omega)
+          (fun l hl hl' => by have := hlo_le l hl hl'; omega) _
+
+/-! ### non-vacuity and tests (concrete level vectors; `decide` on literals = test) -/
+
+/-- test: the hypothesis of `C04_no_panic` / `C04_eq_spec` is met by a real mixed line -/
+example : ∀ l ∈ [0, 0, 1, 1, 2, 2, 1, 0], l ≤ 126 := by decide
+
+/-- test: the hypothesis of `C04_identity` is met by a non-constant all-even line (four passes cancel) -/
+example : ∀ l ∈ [2, 2, 4, 0, 6], l % 2 = 0 := by decide
+
+/-- test: Model and Spec on a line with levels 0,1,2 -/
+example : reorderVisual [0, 0, 1, 1, 2, 2, 1, 0] = ([0, 1, 6, 4, 5, 3, 2, 7], none) ∧
+    Spec.l2 [0, 0, 1, 1, 2, 2, 1, 0] = [0, 1, 6, 4, 5, 3, 2, 7] := by decide
+
+/-- test: a line whose minimum is even and below the lowest odd level (extra Model passes) -/
+example : reorderVisual [2, 5, 4, 3, 0] = (Spec.l2 [2, 5, 4, 3, 0], none) ∧
+    Spec.l2 [2, 5, 4, 3, 0] = [0, 3, 1, 2, 4] := by decide
+
+/-- test: all even, not constant: identity -/
+example : reorderVisual [2, 2, 4, 0, 6] = ([0, 1, 2, 3, 4], none) := by decide
+
+/-- test: the range hypothesis is needed for `C04_no_panic` and `C04_eq_spec` -/
+example : (reorderVisual [201, 203]).2 = some .lowestGeRtl ∧ (reorderVisual [201, 203]).1 = [0, 1] ∧
+    Spec.l2 [201, 203] = [1, 0] := by decide
 
 end UBidi.Props.C04
